@@ -2,6 +2,7 @@
 # modules decide each property. engines: (name, n_quick, n_thorough)
 PROPS = {
     'C05': {
+        'lean_modules': ['C05', 'C05t'],
         'engines': [('rl', 400, 20000), ('pub', 300, 5000), ('conn', 150, 3000), ('sub', 100, 2000), ('unsub', 100, 2000),
                     ('ack', 80, 800), ('empty', 1, 1), ('val', 80, 800), ('apipub', 200, 4000), ('apiconn', 100, 2000),
                     ('inpub', 200, 4000), ('inflow', 150, 1500)],
@@ -12,6 +13,7 @@ PROPS = {
                         'payloads above 64 bytes are compared by length, checksum and 32-byte head'],
     },
     'C06': {
+        'lean_modules': ['C06', 'C06t'],
         'engines': [('rp', 600, 6000), ('parse', 600, 6000), ('ustr', 200, 3000), ('serve', 300, 4000)],
         'rule': 'structured streams (valid prefix, one mutation from each malformed class of the property, trailing garbage), '
                 'boundary byte alphabet {00,01,02,7f,80,ff} (exhaustively up to 6 length bytes / 4 body bytes in the thorough tier) '
@@ -50,7 +52,7 @@ PROPS = {
                         'transport writes succeed (a failing ack write ends the connection; covered by C11/C16)'],
     },
     'C19': {
-        'engines': [('err', 400, 4000)],
+        'engines': [('err', 400, 4000), ('rhandle', 1, 1)],
         'rule': 'error chains built with the real wrappers (wrapError, wrapErrorWithRetry via hooks; fmt %w; ConnectionError; '
                 'RequestTimeoutError from requestContext; a struct with an Err field) over 16 sentinels; targets = every node, every '
                 'sentinel, fresh errors, io.EOF; all chains up to depth 4 in the thorough tier, random depth <= 12 otherwise',
@@ -58,6 +60,7 @@ PROPS = {
                         'the retry-handle half of the property (Retry re-issues the same request) is decided with C12'],
     },
     'C20': {
+        'lean_modules': ['C20', 'C20t'],
         'engines': [('c20', 300, 3000)],
         'rule': 'ServeMux / ServeAsync with 1-6 matching handlers that run scripted mutations (set topic, overwrite payload bytes in '
                 'place, zero, append into spare capacity, reslice, flip flags/id) and snapshot what they received on entry; 1-5 rounds '
@@ -93,7 +96,7 @@ PROPS = {
     },
     'C12': {
         'lean_modules': ['C12'],
-        'engines': [('retry', 300, 2500)],
+        'engines': [('retry', 300, 2500), ('rhandle', 1, 1)],
         'rule': 'scripts of environment events (app requests before Connect / while connected / during an outage, dial results, CONNACK accepted with or without session / refused / never, peer close, inbound messages, Handle) with a per-packet fault plan (write failure, lost request, lost acknowledgement, silent) and a friendly tail; hand-written witnesses of the repaired defects first; all single- and double-fault plans over short histories in the thorough tier; non-trivial = the script reached at least one connection',
         'assumptions': ['one task of the RetryClient is one atomic model step (single task goroutine, one request outstanding at a time)',
                         'the transport either delivers a whole packet or fails the write; the broker conforms to MQTT 3.1.1 (Spec in Model/Retry: Broker)',
@@ -128,7 +131,7 @@ PROPS = {
         'partial': 'promptness of detection is measured by the correspondence run, not proved (Go timers are not modelled)',
     },
     'C09': {
-        'lean_modules': ['C09a', 'C09b'],
+        'lean_modules': ['C09a', 'C09b', 'C09t'],
         'engines': [('retry', 300, 2500), ('kareconn', 4, 40)],
         'rule': 'retry-stack scripts (dial errors, refused / absent CONNACK, peer close, faults that end connections, Disconnect) '
                 'checked for: every redial waits at least min(base*2^j, max) after the j-th consecutive failure (lower bound only), no dial '
@@ -158,5 +161,26 @@ PROPS = {
         'assumptions': ['registration of a waiter and the write of its request are one atomic step (no acknowledgement can precede the request)',
                         'goroutine scheduling and channel semantics of Go are not formalised: each blocking select is modelled by its three exits',
                         'promptness ("returns promptly") is measured by the correspondence run (5 s budget per predicted return), not proved'],
+    },
+    'C10': {
+        'lean_modules': ['C10'],
+        'engines': [('racebase', 6, 30), ('racereconn', 6, 30)],
+        'race': [('racebase', 6, 20), ('racereconn', 8, 24)],
+        'race_rounds': 1, 'race_rounds_thorough': 6,
+        'rule': 'concurrent compositions: 2-16 goroutines issuing Publish QoS0/1/2, Subscribe, Unsubscribe, Ping, Handle, Stats, Err, Done '
+                'on a BaseClient whose broker floods inbound QoS 1/2 traffic (reader-goroutine acknowledgements); the same on a '
+                'ReconnectClient with Client(), keep-alive and 2-5 connection cuts, half of the runs starting their callers while Connect '
+                'is still in progress; the transport delivers every Write byte by byte with yields and an independent framer parses what '
+                'the broker received; every scenario also runs in a -race build and every race report is a violation',
+        'level_text': 'PARTIAL. Lean 4 theorems: (a) framing - for any number of threads and any schedule, writers that follow the '
+                      'muWrite discipline produce a concatenation of whole packets; (b) lock discipline - every access in the table of '
+                      'shared-field accesses regenerated from the Go sources on every run holds the guarding mutex or is a documented '
+                      'ordered exception. Tied to /repo by the extractor (a changed lock discipline breaks the proof) and by race-detector '
+                      'runs of concurrent scenarios (search for a concrete failing schedule).',
+        'partial': 'Go\'s memory model, scheduler and race detector are not formalised; the access table is a syntactic abstraction '
+                   '(straight-line lock regions, defer-unlock); absence of races is shown only for the explored schedules',
+        'assumptions': ['the race detector only reports races on executed schedules', 'concurrent Ping callers share one response slot (only one goroutine pings in the base scenario)'],
+        'technique': 'Lean 4 proof over an extracted lockset table + race-detector runs',
+        'timeout': 1800,
     },
 }
